@@ -825,7 +825,11 @@ class Exec:
         f = e.func
         src = ast.unparse(f)
         # ignore patterns (logging etc.)
-        if self.unit.is_ignored_call(src):
+        root = f
+        while isinstance(root, (ast.Attribute, ast.Call, ast.Subscript)):
+            root = root.func if isinstance(root, ast.Call) else root.value
+        shadowed = isinstance(root, ast.Name) and (root.id in st.env or root.id in st.cells)
+        if self.unit.is_ignored_call(src, local_root=shadowed):
             self.note_ignored(e, f'call `{src}(...)` dropped (no effect on the property; assumed not to raise)')
             return [('ok', st, NONE)]
         hook = getattr(self.unit, 'on_call', None)
